@@ -99,6 +99,8 @@ def check_collector_history(hist, concurrency, budget, reps):
             if open_call:
                 v("harness", "deliver inside next_job", i)
         elif k == "block":
+            if outcome_at is not None:
+                continue  # another collector of the same scheduler is still running
             inflight = len(started) - len(resolved)
             if first_fail_at is not None:
                 v("error-not-raised", "a sampler call failed but the collector went back to waiting", i)
